@@ -83,6 +83,15 @@ var c19Entries = []string{"query", "first", "exists", "match", "existsormatch", 
 
 var c19BaseVars map[string]any
 
+var c19Concurrent atomic.Bool
+var c19NamedZone = func() *time.Location {
+	l, err := time.LoadLocation("Asia/Kolkata") // +05:30 for every date of the pool documents
+	if err != nil {
+		panic("harness: tzdata: " + err.Error())
+	}
+	return l
+}()
+
 var c19Zone = time.FixedZone("+05:30", 5*3600+1800)
 
 // c19Exec runs one input on the given paths and returns the result fingerprint.
@@ -98,7 +107,14 @@ func c19Exec(paths []*path.Path, docs []any, vars map[string]any, in c19Input, e
 		// variables map: comparable only between calls given the same map
 		vars = c19BaseVars
 	}
-	o := h.CallMonitored(in.entry, p, docs[in.di], h.Opts{Vars: vars, Silent: in.silent, TZ: in.tz, Zone: c19Zone}, m)
+	zone := c19Zone
+	if yieldEvery != 0 || c19Concurrent.Load() {
+		// the concurrent phase runs in a NAMED zone with the same offset, which
+		// no sequential call of this process has used before: whatever the
+		// library sets up on first use of a zone is set up under contention
+		zone = c19NamedZone
+	}
+	o := h.CallMonitored(in.entry, p, docs[in.di], h.Opts{Vars: vars, Silent: in.silent, TZ: in.tz, Zone: zone}, m)
 	fp := o.Class
 	if len(o.Faults) > 0 {
 		fp += " FAULT:" + strings.Join(o.Faults, ";")
@@ -130,6 +146,11 @@ type c19Op struct {
 	call   int64
 	ret    int64
 	out    string
+}
+
+func fresh0(pi int) *path.Path {
+	p, _, _ := h.ParseSafe(c19Pool[pi])
+	return p
 }
 
 func parsePool() ([]*path.Path, []bool) {
@@ -217,6 +238,7 @@ func runC19(c *h.Ctx) {
 		shared, _ := parsePool()
 		// ... and a fresh variables map: the first uses of its members race too
 		vars := newVars()
+		c19Concurrent.Store(true)
 		var wg sync.WaitGroup
 		start := make(chan struct{})
 		t0 := time.Now()
@@ -256,6 +278,7 @@ func runC19(c *h.Ctx) {
 		if parseErrs.Load() > 0 {
 			c.Violate("concurrent-differs", h.F("kind", "parse"), fmt.Sprintf("%d concurrent Parse calls of pool texts failed", parseErrs.Load()), h.Case{Kind: "concurrent-parse"})
 		}
+		c19Concurrent.Store(false)
 		// history check with porcupine: stateless model "output = isolated baseline of the input"
 		var hist []porcupine.Operation
 		for _, gops := range ops {
@@ -391,6 +414,35 @@ func runC19(c *h.Ctx) {
 		}
 		if h.CanonTyped(docs) != docFP {
 			c.Violate("concurrent-differs", h.F("kind", "shared-input-modified"), "a shared document was modified by sequential queries", h.Case{Kind: "shared-input"})
+		}
+	}
+	// result lists belong to their callers: appending to one (an empty one,
+	// too) must not show through another
+	{
+		var empties [][]any
+		for pi := range c19Pool {
+			if len(empties) >= 8 {
+				break
+			}
+			o := h.Call("query", fresh0(pi), docs[1], h.Opts{Vars: vars})
+			if o.Class == h.OK && len(o.Items) == 0 && o.Items != nil {
+				empties = append(empties, o.Items)
+			}
+		}
+		for i := range empties {
+			empties[i] = append(empties[i], fmt.Sprintf("caller %d", i))
+		}
+		bad := ""
+		for i := range empties {
+			if empties[i][0] != fmt.Sprintf("caller %d", i) {
+				bad = fmt.Sprintf("after %d callers each appended one item to the empty result Query gave them, caller %d reads %v", len(empties), i, empties[i][0])
+				break
+			}
+		}
+		if bad != "" {
+			c.Violate("repeat-differs", h.F("kind", "results-share-storage"), bad, h.Case{Kind: "result-aliasing"})
+		} else if len(empties) >= 2 {
+			c.Held("repeat-differs")
 		}
 	}
 	// two callers that parsed the same text hold independent Paths: using one
